@@ -160,6 +160,17 @@ def random_ops(rng, nr, nc, with_borders, cycles):
                 else:
                     ops.append({"op": "border", "axis": "col", "i": rng.randint(1, nc), "w": rng.choice([1, 2, 3, 4, 8]), "side": rng.choice(["left", "right"])})
         rng.shuffle(ops[-6:])
+        if with_borders and cyc == 0 and rng.random() < 0.6:
+            # sizes read BEFORE a border arrives (memoised values of the lines on both sides of the new border must not survive it)
+            pre = []
+            for o in ops:
+                if o["op"] == "border":
+                    k, top = ("rh", nr) if o["axis"] == "row" else ("cw", nc)
+                    for i in (o["i"] - 1, o["i"], o["i"] + 1):
+                        if 1 <= i <= top:
+                            pre.append({"op": "query", "k": k, "i": i})
+                    pre.append({"op": "query", "k": "height" if o["axis"] == "row" else "width", "i": 1})
+            ops[:0] = pre
         for _ in range(rng.randint(0, 3)):
             c = rng.choice(["rh", "cw", "height", "width", "other"])
             ops.append({"op": "query", "k": c, "i": rng.randint(1, nr if c == "rh" else nc)})
@@ -170,8 +181,9 @@ def random_ops(rng, nr, nc, with_borders, cycles):
 
 
 def mechanism_histories(ctx, depth):
-    """All bounded behaviours of the Level-B mechanism (Mode = separate) become abstract histories over row 2 / column 2."""
-    cfg = ('CONSTANTS Lines = {"r", "c"}\nSizes = {60, 82, 90}\nWidths = {1, 3, 8}\nDefault = 40\nMode = "separate"\nD = %d\n'
+    """All bounded behaviours of the Level-B mechanism (Mode = separate) become abstract histories over two adjacent rows
+    (or columns): abstract line l = row / column l + 1 (1-based), so that there is a line before the first one"""
+    cfg = ('CONSTANTS NL = 2\nSizes = {60, 82}\nWidths = {1, 8}\nDefault = 40\nMode = "separate"\nD = %d\n'
            'SPECIFICATION Spec\nCONSTRAINT Depth\nCHECK_DEADLOCK FALSE\n' % depth)
     dump = os.path.join(ctx.scratch, "geodump")
     res = ctx.tlc("Geometry", cfg, what="Gen_Geometry", dump=dump, timeout=1800)
@@ -184,16 +196,19 @@ def mechanism_histories(ctx, depth):
           and any(o["op"] == "save" for o in st["hist"])]
     hs.sort(key=lambda h: json.dumps(h, sort_keys=True))
     out = []
-    for h in hs:
+    for n, h in enumerate(hs):
+        row = n % 2 == 0
         ops = []
         for o in h:
-            row = o.get("l") == "r"
             if o["op"] == "set":
-                ops.append({"op": "set", "k": "rh" if row else "cw", "i": 2, "v": o["v"] // 2})       # half points -> points
+                ops.append({"op": "set", "k": "rh" if row else "cw", "i": o["l"] + 1, "v": o["v"] // 2})       # half points -> points
             elif o["op"] == "query":
-                ops.append({"op": "query", "k": "rh" if row else "cw", "i": 2})
+                ops.append({"op": "query", "k": "rh" if row else "cw", "i": o["l"] + 1})
             elif o["op"] == "border":
-                ops.append({"op": "border", "axis": "row" if row else "col", "i": 2, "w": o["w"], "side": "top" if row else "left"})     # allowance in half points = width in points
+                # edge e lies after line e: drawn as the far side of line e ("lo") or as the near side of line e + 1 ("hi")
+                lo = o["from"] == "lo"
+                ops.append({"op": "border", "axis": "row" if row else "col", "i": o["e"] + 1 if lo else o["e"] + 2, "w": o["w"],
+                            "side": ("bottom" if lo else "top") if row else ("right" if lo else "left")})
             else:
                 ops.append({"op": o["op"]})
         if ops[-1]["op"] != "save":
@@ -212,9 +227,9 @@ def run(ctx):
                        "effect on the open document: C03), so that rows/columns can stay unqueried until the file is written",
                        "structural edits are not mixed with geometry setters (outside C16's quantifier)"]
     ctx.stage("model-check")
-    base = 'CONSTANTS Lines = {"r1", "c1"}\nSizes = {60, 82}\nWidths = {0, 1, 8}\nDefault = 40\nMode = "%s"\nD = %d\nSPECIFICATION Spec\nVIEW NoHist\nCONSTRAINT Depth\nINVARIANT SurvivesReload\nPROPERTY QueryIsReadOnly\nCHECK_DEADLOCK FALSE\n'
+    base = 'CONSTANTS NL = 2\nSizes = {60, 82}\nWidths = {0, 1, 8}\nDefault = 40\nMode = "%s"\nD = %d\nSPECIFICATION Spec\nVIEW NoHist\nCONSTRAINT Depth\nINVARIANT SurvivesReload\nPROPERTY QueryIsReadOnly\nCHECK_DEADLOCK FALSE\n'
     ctx.tlc("Geometry", base % ("separate", 7 if q else 9), what="MC_Geometry[separate]", timeout=3000)
-    for m in ("SaveFromMemoOnly", "AllowanceSavedBack", "UnflooredAllowance"):
+    for m in ("SaveFromMemoOnly", "AllowanceSavedBack", "UnflooredAllowance", "ForgetWrongNeighbour"):
         ctx.tlc("Geometry", base % (m, 7), what="Bug_%s" % m, expect_violation="SurvivesReload", count=False)
     ctx.stage("generate")
     mh, nstates = mechanism_histories(ctx, 4 if q else 5)
